@@ -94,6 +94,9 @@ func (w *vWorld) parse(ctx context.Context, query string) (PreparedStatements, e
 	w.events = append(w.events, vEvent{kind: 'p', query: []byte(query), ctx: ctx})
 	w.lastParse = nil
 	w.lastParseErr = false
+	if w.parseMenu < 0 { // exactly one statement, 1 or 0 columns
+		return Prepared(w.mkStmt(vChoose(2), 0)), nil
+	}
 	switch vChoose(w.parseMenu) {
 	case 0:
 		w.lastParseErr = true
